@@ -2,7 +2,7 @@ package driver
 
 func init() {
 	var quick, thorough []*Job
-	b := "real NewBootstrap/Listen/Async/Sync/Connect/Shutdown/Listener.Close with a mock transport factory whose acceptor blocks until closed; scenario bits: 1 listener started with Async, 2 an inbound connection is offered, 4 a client Connect runs concurrently, 8 the user also calls Listener.Close; Shutdown runs concurrently with all of it (ALL interleavings); synchronous or queued channels"
+	b := "real NewBootstrap/Listen/Async/Sync/Connect/Shutdown/Listener.Close with a mock transport factory whose acceptor blocks until closed; scenario bits: 1 listener started with Async, 2 an inbound connection is offered, 4 a client Connect runs concurrently, 8 the user also calls Listener.Close, 16 an application handler panics during activation and the exception is swallowed; Shutdown runs concurrently with all of it (ALL interleavings); synchronous or queued channels"
 	add := func(list *[]*Job, limit int64, args ...int64) {
 		j := &Job{Pkg: "", Func: "ZZ_C13_Shutdown", Args: args, Bounds: b}
 		if limit > 0 {
@@ -16,6 +16,12 @@ func init() {
 	add(&quick, 0, 1, 2)
 	add(&quick, 0, 4, 2)
 	add(&quick, 0, 5, 0)
+	add(&quick, 0, 20, 0) // connect + activation failure swallowed by the application
+	add(&quick, 0, 19, 0) // listen + peer + activation failure
+	for _, lf := range []int64{0, 1} {
+		quick = append(quick, &Job{Pkg: "", Func: "ZZ_C13_Relisten", Args: []int64{lf}, Bounds: "a listener closed before its accept loop started, the same address listened on and started again, then the first listener's Async (either order), Shutdown concurrently; ALL interleavings"})
+	}
+	add(&thorough, 0, 23, 0)
 	add(&thorough, 0, 3, 2)
 	add(&thorough, 0, 5, 2)
 	add(&thorough, 0, 9, 2)
@@ -23,12 +29,12 @@ func init() {
 	thorough = append(thorough, &Job{Pkg: "", Func: "ZZ_C13_Shutdown", Args: []int64{7, 0}, Bounds: b, Limit: 3000e9})
 	Specs["C13"] = &Spec{
 		Jobs: jobsBy(quick, thorough), Labels: labelFilter("c13-"),
-		MustReach: []string{"c13-done"},
+		MustReach: []string{"c13-done", "c13-relisten-done"},
 		Bounds: map[string]string{
 			"quick":    "one listener, one offered inbound connection, one client connect, optional Listener.Close: scenarios {none, listen, listen+peer, connect, listen+close, listen+peer+close, listen+connect}",
 			"thorough": "queued channels for the same scenarios; listen+peer+connect (up to 50 min)",
 		},
-		Outside:     "real TCP (transport/tcp); several listeners; channels whose context was replaced through transport.WithContext (their read loop does not observe the bootstrap context)",
+		Outside:     "real TCP (transport/tcp); more than two listeners; channels whose context was replaced through transport.WithContext (their read loop does not observe the bootstrap context)",
 		Assumptions: append([]string{"net/url.Parse returns an opaque well-formed URL; sync.Map modelled as a linearizable map"}, Specs["C01"].Assumptions...),
 	}
 }
